@@ -138,15 +138,20 @@ pub fn templates(args: &[String], out: &mut Out) {
                 }
             }
             let want_addr = c["addr"].as_str().unwrap();
-            for net in nets {
+            // the text form regroups the program into 5-bit symbols: programs of all-one and all-zero bits reach every padding position
+            let mut variants = vec![s.clone()];
+            if want_addr != "none" && s.is_witness_program() {
+                for fill in [0xffu8, 0x00, 0x01] { let mut b = bytes.clone(); for x in b[2..].iter_mut() { *x = fill; } variants.push(Script::from(b)); }
+            }
+            for (s, net) in variants.iter().flat_map(|v| nets.iter().map(move |n| (v, *n))) {
                 for bl in [None, Some(blinder)] {
-                    match Address::from_script(&s, bl, net) {
+                    match Address::from_script(s, bl, net) {
                         None => { if want_addr != "none" { bad.push((format!("C16/from_script/missing/{}", want_addr), shape.clone())); } }
                         Some(a) => {
                             if want_addr == "none" {
                                 bad.push((if bytes.len() < 4 { "C16/from_script/v1plus-short-program".to_string() } else { "C16/from_script/unexpected-address".to_string() }, shape.clone()));
                             }
-                            if a.script_pubkey() != s { bad.push(("C16/from_script/script_pubkey-differs".into(), shape.clone())); }
+                            if a.script_pubkey() != *s { bad.push(("C16/from_script/script_pubkey-differs".into(), shape.clone())); }
                             match Address::from_str(&a.to_string()) {
                                 Ok(a2) if a2 == a => {}
                                 other => bad.push((if want_addr == "none" && bytes.len() < 4 { "C16/from_script/v1plus-short-program/text-does-not-parse".to_string() } else { "C16/from_script/text-does-not-parse-back".to_string() }, format!("{} -> {:?}", a, other.map(|x| x.to_string()).map_err(|e| e.to_string())))),
